@@ -153,7 +153,14 @@ def judge_merge(ctx, tracks, skip_checks, case, via='merge_tracks', clause='mess
     items, total = model_merge(tracks)
     try:
         if via == 'merge_tracks':
-            out = merge_tracks(tracks, skip_checks=skip_checks)
+            # the three ways to say it: by keyword, by position, (for the default) not at all
+            style = len(tracks) % 3
+            if style == 0:
+                out = merge_tracks(tracks, skip_checks=skip_checks)
+            elif style == 1 or skip_checks:
+                out = merge_tracks(tracks, skip_checks)
+            else:
+                out = merge_tracks(tracks)
         else:
             mid = MidiFile(type=1)
             mid.tracks = tracks
